@@ -95,6 +95,8 @@ func afPrelude() []afCase {
 		signIn("google", good(), "sess", sess(func(s *afSess) { s.Email = "@x.io" }), nil),
 		signIn("google", good(), "garbage", nil, nil),
 		signIn("google", good(), "otherkey", sess(nil), nil),
+		signIn("google", good(), "codekey", sess(nil), nil), // an authorization code is not a session cookie
+		signIn("okta", good(), "codekey", sess(nil), nil),
 		signIn("google", &afSign{URI: afCallbackURI}, "sess", sess(nil), nil), // no state
 		signIn("google", &afSign{URI: afCallbackURI, Mangle: "badsig", State: "s"}, "sess", sess(nil), nil),
 		signIn("google", &afSign{URI: afCallbackURI, Mangle: "nosig", State: "s"}, "sess", sess(nil), nil),
@@ -224,6 +226,23 @@ func afPrelude() []afCase {
 			}))
 		}
 	}
+	// a very long message, then ordinary ones: each JSON error body is one document about its own request
+	for _, n := range []int{5000, 9000, 100} {
+		n := n
+		flows = append(flows, cb("google", func(s *afStep) {
+			s.Csrf = ""
+			s.Query = [][2]string{{"error", strings.Repeat("x", n)}}
+			s.Headers = map[string]string{"Accept": "application/json"}
+		}), cb("google", func(s *afStep) {
+			s.Csrf = ""
+			s.Query = [][2]string{{"error", "access_denied"}}
+			s.Headers = map[string]string{"Accept": "application/json"}
+		}), cb("okta", func(s *afStep) {
+			s.Csrf = ""
+			s.Query = [][2]string{{"error", "short"}}
+			s.Headers = map[string]string{"Accept": "application/json"}
+		}))
+	}
 	cases = append(cases, base(flows...))
 	// sign-out
 	so := func(method string, sg *afSign, cookie string, rev afIdP) afStep {
@@ -306,6 +325,10 @@ func afPrelude() []afCase {
 	}
 	// the same code presented twice, the session's lifetime ending in between: live → tokens, then expired → 401
 	okc := Q("client_id", afProxyID, "client_secret", afProxySecret)
+	// a browser signs in; its session cookie — what the cookie store sealed — is not an authorization code
+	bc = append(bc, afStep{Slug: "google", Endpoint: "start", StartOf: afCallbackURI},
+		afStep{Slug: "google", Endpoint: "callback", Query: [][2]string{{"code", "idp-code"}, {"state", "{IDPSTATE}"}}, Csrf: "jar"},
+		cred("redeem", "POST", nil, okc, nil, func(s *afStep) { s.Code = "jarcookie" }))
 	bc = append(bc,
 		cred("redeem", "POST", nil, okc, nil, func(s *afStep) { s.Code = "short-lived" }),
 		cred("redeem", "POST", nil, okc, nil, func(s *afStep) { s.Code = "repeat" }),
@@ -410,6 +433,7 @@ func afPrelude() []afCase {
 	}
 	cases = append(cases, afCase{ProvRedeem: pr})
 	cases = append(cases, afCase{Overlap: 150})
+	cases = append(cases, afCase{SigOverlap: 400})
 	return cases
 }
 
